@@ -27,6 +27,32 @@ struct Obs<'a> {
 }
 
 impl<'a> Monitor for Obs<'a> {
+    /// boundary walk: in a quarter of the calls pick the time step that puts the blocked share
+    /// exactly on one of the configured fractions (possible for dyadic fractions)
+    fn suggest_step(&mut self, r: &mut Xo, now: VClock) -> Option<i64> {
+        if !r.chance(1, 4) {
+            return None;
+        }
+        let mut fr: Vec<f64> = self.machines.iter().map(|m| m.max_blocking_frac).filter(|f| *f > 0.0 && *f < 1.0).collect();
+        if self.bf > 0.0 && self.bf < 1.0 {
+            fr.push(self.bf);
+        }
+        if fr.is_empty() {
+            return None;
+        }
+        let f = *r.pick(&fr);
+        let e = now.0.saturating_sub(self.start) as f64;
+        let ongoing = if self.active { now.0.saturating_sub(self.started) } else { 0 };
+        let b = (self.blocked + ongoing) as f64;
+        // active: (b + dt) / (e + dt) = f ; idle: b / (e + dt) = f
+        let dt = if self.active { (f * e - b) / (1.0 - f) } else { b / f - e };
+        if dt.is_finite() && dt >= 0.0 && dt < 1.0e12 && dt.fract() == 0.0 {
+            Some(dt as i64)
+        } else {
+            None
+        }
+    }
+
     fn call(&mut self, rec: &CallRec<'_>, out: &mut Out) -> Verdict {
         let now = rec.now.0;
         if now < self.last {
